@@ -11,17 +11,20 @@ class Ctx:
         self.F = F
         self._cfg = {}
         self._res = {}
+        self._keep = []
 
     def cfg(self, body):
-        c = self._cfg.get(body.nname)
+        c = self._cfg.get(id(body))
         if c is None:
-            c = self._cfg[body.nname] = CFG(body)
+            c = self._cfg[id(body)] = CFG(body)
+            self._keep.append(body)
         return c
 
     def res(self, body):
-        r = self._res.get(body.nname)
+        r = self._res.get(id(body))
         if r is None:
-            r = self._res[body.nname] = Resolver(self.F, body)
+            r = self._res[id(body)] = Resolver(self.F, body)
+            self._keep.append(body)
         return r
 
 
